@@ -537,8 +537,8 @@ pub fn run_batch<W: World>(
     struct WorkerOut {
         stats: Stats,
         evaluations: u64,
-        nontrivial: DetSet<u64>,
-        plans: DetSet<u64>,
+        nontrivial: Vec<u64>,
+        plans: Vec<u64>,
         digest_acc: u64,
         sample_digests: Vec<(u64, u64)>,
         samples: Vec<(u64, Value)>,
@@ -551,8 +551,8 @@ pub fn run_batch<W: World>(
                 let mut out = WorkerOut {
                     stats: Stats::default(),
                     evaluations: 0,
-                    nontrivial: DetSet::default(),
-                    plans: DetSet::default(),
+                    nontrivial: Vec::new(),
+                    plans: Vec::new(),
                     digest_acc: 0,
                     sample_digests: Vec::new(),
                     samples: Vec::new(),
@@ -574,9 +574,9 @@ pub fn run_batch<W: World>(
                         let pd = det_hash(&plan);
                         let r = execute_once(w, &plan, &mut out.stats, known, false);
                         out.evaluations += 1;
-                        out.plans.insert(pd);
+                        out.plans.push(pd);
                         if r.nontrivial {
-                            out.nontrivial.insert(pd);
+                            out.nontrivial.push(pd);
                             if out.samples.len() < want_samples && index % 7 == 3 {
                                 out.samples.push((
                                     index,
@@ -605,8 +605,8 @@ pub fn run_batch<W: World>(
 
     let mut stats = Stats::default();
     let mut evaluations = 0;
-    let mut nontrivial: DetSet<u64> = DetSet::default();
-    let mut plans: DetSet<u64> = DetSet::default();
+    let mut nontrivial: Vec<u64> = Vec::new();
+    let mut plans: Vec<u64> = Vec::new();
     let mut batch_digest = 0u64;
     let mut sample_digests = BTreeMap::new();
     let mut samples: Vec<(u64, Value)> = Vec::new();
@@ -621,6 +621,11 @@ pub fn run_batch<W: World>(
     }
     samples.sort_by_key(|(i, _)| *i);
     samples.truncate(want_samples);
+    // distinct counts are measured: sort + dedup of the 64-bit plan digests
+    nontrivial.sort_unstable();
+    nontrivial.dedup();
+    plans.sort_unstable();
+    plans.dedup();
     let mut found = found.into_inner().unwrap();
     found.sort_by_key(|f| f.index);
     let first = found.into_iter().next().map(|f| (f.index, f.plan, f.violation));
